@@ -96,10 +96,13 @@ def run_case(case):
     def add(k, n=1):
         cnt[k] = cnt.get(k, 0) + int(n)
 
-    def lcm_full(d):
+    built = {}
+
+    def lcm_full(d, model=None):
         """Solve `d` with the real code; return list of full arrays keyed by sorted state names."""
         r = Ref(d)
-        m = dsl.build_lcm_model(d)
+        m = dsl.build_lcm_model(d) if model is None else model
+        built["last"] = m
         f, _ = pipeline.get_lcm_function(m, "solve")
         out = pipeline.to_np_list(f(dsl.lcm_params(d["params"])))
         fulls = []
@@ -115,6 +118,7 @@ def run_case(case):
 
     try:
         rb, base = lcm_full(desc)
+        m_base = built["last"]
     except LayoutMismatch as e:
         res["violations"].append({"key": "layout_contract", "what": f"base specification: {e}"})
         res["status"] = "violated"
@@ -127,11 +131,11 @@ def run_case(case):
     base_c = [canon(rb, base[t], names0) for t in range(ref.T)]
     ref_c = [canon(ref, np.where(np.broadcast_to((ref.feas_state(t).reshape(ref.feas_state(t).shape + (1,) * (len(ref.sshape) - ref.feas_state(t).ndim)) if ref.feas_state(t) is not None else True), ref.sshape), sol["V"][t], np.nan), names0) for t in range(ref.T)]
 
-    def compare(name, d2, back=None, vanish_is_neginf=False):
+    def compare(name, d2, back=None, vanish_is_neginf=False, model=None):
         """Solve d2 and compare with the base solution state by state."""
         add("rewrite_" + name)
         try:
-            r2, full2 = lcm_full(d2)
+            r2, full2 = lcm_full(d2, model=model)
         except LayoutMismatch as e:
             res["violations"].append({"key": "layout_contract", "what": f"rewriting {name}: {e}"})
             return
@@ -174,6 +178,20 @@ def run_case(case):
     d1["choices"] = [desc["choices"][i] for i in rng.permutation(len(desc["choices"]))]
     d1["functions"] = [desc["functions"][i] for i in rng.permutation(len(desc["functions"]))]
     compare("permute", d1)
+    # (i') the same permutation written with the base model's OWN grid and function objects
+    # (a user re-orders the dicts of an existing Model): equal-by-value models that differ only in
+    # declaration order are different specifications for the layout contract
+    try:
+        import lcm as _lcm
+
+        m_perm = _lcm.Model(n_periods=m_base.n_periods,
+                            functions={n: m_base.functions[n] for n, _, _ in d1["functions"]},
+                            states={k: m_base.states[k] for k, _ in d1["states"]},
+                            choices={k: m_base.choices[k] for k, _ in d1["choices"]})
+    except Exception:  # noqa: BLE001
+        m_perm = None
+    if m_perm is not None:
+        compare("permute_same_objects", d1, model=m_perm)
     # (ii) renaming
     d2, mp = rename_desc(desc, rng)
     compare("rename", d2, back=mp)
